@@ -125,6 +125,8 @@ pub struct Globals {
     /// which task spawned which
     pub spawned_by: BTreeMap<u64, u64>,
     pub spawned_this_settle: BTreeSet<u64>,
+    /// tasks spawned in the poll that is running right now: they cannot have started yet
+    pub fresh_in_poll: BTreeSet<u64>,
     pub local_rounds: u64,
     /// left operand of an `and` -> the combined command it is part of
     pub inline_parent: BTreeMap<u64, u64>,
@@ -783,6 +785,7 @@ impl Seq {
                     g.live_tasks.insert(uid);
                     g.spawned_by.insert(uid, g.cur_owner);
                     g.spawned_this_settle.insert(uid);
+                    g.fresh_in_poll.insert(uid);
                     // (the child's copy of the handles is taken before its own handle exists)
                     let child = if self.legacy { Seq::new(&task, self.acc, self.legacy) } else { Seq::branch(&task, self.acc, self.legacy, &self.slots) };
                     if let Some(s) = slot {
@@ -815,7 +818,7 @@ impl Seq {
                 },
                 Stmt::AbortTask(slot) => {
                     if let Some(uid) = self.slots.get(&slot) {
-                        if (g.ran_this_settle.contains(uid) || g.spawned_this_settle.contains(uid)) && !g.aborted_tasks.contains(uid) {
+                        if (g.ran_this_settle.contains(uid) || (g.spawned_this_settle.contains(uid) && !g.fresh_in_poll.contains(uid))) && !g.aborted_tasks.contains(uid) {
                             // whether the target ran before the abort depends on queue order
                             g.ambiguous = Some("task aborted in the settle in which it ran".into());
                         }
@@ -970,6 +973,7 @@ impl Seq {
                     let uid = g.uid();
                     g.spawned_by.insert(uid, g.cur_owner);
                     g.spawned_this_settle.insert(uid);
+                    g.fresh_in_poll.insert(uid);
                     g.live_tasks.insert(uid);
                     if let Some(sl) = slot {
                         self.slots.insert(sl, uid);
@@ -1224,7 +1228,9 @@ impl TaskSt {
         let before = g.progress;
         g.progress = false;
         g.cur_owner = self.uid;
+        g.fresh_in_poll.clear();
         let fin = self.seq.run(g, outs, spawned);
+        g.fresh_in_poll.clear();
         if g.progress {
             g.ran_this_settle.insert(self.uid);
             let stack = g.cmd_stack.clone();
@@ -1850,6 +1856,7 @@ impl Model {
                 task_aborts: vec![],
                 spawned_by: BTreeMap::new(),
                 spawned_this_settle: BTreeSet::new(),
+                fresh_in_poll: BTreeSet::new(),
                 local_rounds: 0,
                 inline_parent: BTreeMap::new(),
                 chans: BTreeMap::new(),
